@@ -119,6 +119,7 @@ type dryInfo struct {
 // Ctx is the per-function verification context.
 type Ctx struct {
 	eng     *Engine
+	eventsSeen map[string]bool // every event name produced on any path (vacuity guard for event literals in contracts)
 	fn      *ssa.Function
 	contract *Contract
 	decls   []string
